@@ -31,6 +31,8 @@ def run(tier, replay=None):
     thorough = tier == "thorough"
     inv = ["TypeOK", "P_C07", "P_C07_Worker"]
 
+    if replay and replay.endswith(".json"):
+        cc.explain_replay(bins, replay)
     beh = os.path.join(wd, "behaviours.ndjson")
     if replay and replay.endswith(".ndjson"):
         beh = replay
